@@ -57,8 +57,8 @@ class GeomdlBase(object):
         cls = self.__class__
         result = cls.__new__(cls)
         memo[id(self)] = result
-        # Don't copy the cache
-        memo[id(self._cache)] = self._cache.__new__(dict)
+        # Don't copy the cache contents, but keep its keys (readers index the cache by key)
+        memo[id(self._cache)] = dict((k, type(v)()) for k, v in self._cache.items())
         # Copy all other attributes
         for k, v in self.__dict__.items():
             setattr(result, k, copy.deepcopy(v, memo))
